@@ -272,10 +272,24 @@ flush inside close or from close itself after part of the record is on disk. -/
 
 inductive IOErr
   | enospc | eio | eacces | eperm | enoent | eintr | eagain | etimedout | ioerror
+  -- exceptions that are NOT I/O errors but can surface at the same places: a second Ctrl+C under Python's
+  -- default SIGINT handler, task cancellation, `sys.exit` in a callback, out of memory, a bug in the record source
+  | keyboardInterrupt | cancelled | systemExit | memoryError | exception
   deriving DecidableEq, Repr
 
-/-- does `except (OSError, IOError)` catch an error of this class?  All of them are OSErrors. -/
+/-- `isinstance(e, OSError)` -/
+def IOErr.isOSError : IOErr → Bool
+  | .keyboardInterrupt | .cancelled | .systemExit | .memoryError | .exception => false
+  | _ => true
+
+/-- does the roll-back handler around the append catch this class?  `except BaseException` (since fix
+838c311; before it was `except (OSError, IOError)` = `IOErr.isOSError`): everything. -/
 def handlerCatches : IOErr → Bool := fun _ => true
+
+/-- the journal creation is guarded by `except (OSError, IOError)` only: an I/O error removes the
+(possibly partial) journal again; any other exception leaves it (the archive has not been touched). -/
+def journalPhaseE (e : IOErr) (fs : FS) (n : Nat) (s : Sched) : Ph :=
+  if e.isOSError then journalPhase fs n s else journalCreate fs n s
 
 /-- `appendAndFinish` with the class `e` of the error that comes out of the `with` block spelled out:
 the roll-back runs iff the handler catches that class; otherwise only `finally` runs. -/
@@ -306,7 +320,7 @@ def writeRecordE (e : IOErr) (fs : FS) (s : Sched) : Ph :=
   match pre.st with
   | some st => ⟨fs, pre.tr, some st⟩
   | none =>
-    let j := journalPhase fs n s
+    let j := journalPhaseE e fs n s
     match j.st with
     | some st => ⟨j.fs, pre.tr ++ j.tr, some st⟩
     | none =>
@@ -366,8 +380,8 @@ structure StepRes where
   tr : NTrace
 
 /-- `write_record` aimed at archive `a` inside the directory -/
-def appendTo (m : Dir) (a : Str) (s : Sched) : StepRes :=
-  let r := writeRecord ⟨m a, m (journalOf a)⟩ s
+def appendTo (m : Dir) (a : Str) (s : Sched) (e : IOErr := .eio) : StepRes :=
+  let r := writeRecordE e ⟨m a, m (journalOf a)⟩ s
   ⟨(m.set a r.fs.archive).set (journalOf a) r.fs.journal, r.status,
    r.tr.map (fun e => (fileOf a e.1, e.1, e.2))⟩
 
@@ -394,15 +408,17 @@ structure Step where
   topen : Out := .ok
   tclose : Out := .ok
   sched : Sched := {}
+  /-- class of the exceptions of this step's schedule -/
+  err : IOErr := .eio
 
 def runStep (m : Dir) (st : Step) : StepRes :=
   match st.kind with
   | .startTrunc =>
     let t := truncateFile m st.target st.topen st.tclose
     match t.st with
-    | .done => let r := appendTo t.dir st.target st.sched; ⟨r.dir, r.st, t.tr ++ r.tr⟩
+    | .done => let r := appendTo t.dir st.target st.sched st.err; ⟨r.dir, r.st, t.tr ++ r.tr⟩
     | _ => t
-  | _ => appendTo m st.target st.sched
+  | _ => appendTo m st.target st.sched st.err
 
 /-- the steps of a life in order; an OSError or a kill ends it -/
 def runLife (m : Dir) : List Step → StepRes
